@@ -105,6 +105,12 @@ func (f *frame) callCommon(c *ssa.CallCommon, site string, deferred bool) []sval
 	}
 	key := contractKey(callee)
 	fc := t.eng.contracts[key]
+	if t.eng.reaches(callee, t.fn) {
+		// (mutual) recursion: the stack depth would follow the input; bounded depth is not
+		// something a per-call contract shows, so recursion on a verified path is an obligation failure
+		t.cur.Assert(False, "termination/no-recursion/"+callee.Name(), t.fc.Props)
+		t.cur.Cmds[len(t.cur.Cmds)-1].Meta = map[string]string{"pos": t.posString()}
+	}
 	if fc != nil && !fc.Inline {
 		return f.contractCall(fc, callee, args)
 	}
